@@ -94,6 +94,17 @@ def set_progress_threshold(thr):
         s3transfer.upload.AggregatedProgressCallback = functools.partial(_RealAgg, threshold=thr)
 
 
+_RealBLS = s3transfer.bandwidth.BandwidthLimitedStream
+
+
+def set_bw_threshold(thr):
+    """Scale the 256 KiB consume threshold of bandwidth limited streams."""
+    if thr is None:
+        s3transfer.bandwidth.BandwidthLimitedStream = _RealBLS
+    else:
+        s3transfer.bandwidth.BandwidthLimitedStream = functools.partial(_RealBLS, bytes_threshold=thr)
+
+
 SHARED_FIELDS = {
     'TransferCoordinator': (s3transfer.futures.TransferCoordinator,
                             ('_status', '_exception', '_result')),
@@ -195,6 +206,7 @@ def build_manager(w):
     cfg = TransferConfig(**scn.get('config', {}))
     set_adjuster(scn.get('adjuster'))
     set_progress_threshold(scn.get('progress_threshold'))
+    set_bw_threshold(scn.get('bw_threshold'))
     if sched.inline:
         ex = NonThreadedExecutor
     else:
@@ -471,6 +483,7 @@ def run_scenario(scn, prefix=(), scratch=None, record_points=False, on_point=Non
         set_shared_fields(False)
         set_adjuster(None)
         set_progress_threshold(None)
+        set_bw_threshold(None)
         if own:
             w.final_listing = scratch.listing()
             scratch.cleanup()
